@@ -58,6 +58,8 @@ func runC04(c *wk.Ctx) {
 	if c.Mine(2) {
 		c.Begin(2, "chains of objects with two defaulted references each")
 		c04DefaultChains(c, "C04")
+		c.Note("chains of single-property objects")
+		c04WrapperChains(c, "C04")
 	}
 	if c.Mine(1) {
 		c.Begin(1, "deep valid values of recursive struct-mapped schemas")
@@ -397,6 +399,61 @@ func c04DefaultChains(c *wk.Ctx, propID string) {
 }
 
 var def2 = "[{}, {}]"
+
+// c04WrapperChains: W0{p: ref W1} -> W1{p: ref W2} -> ... -> Wn{v: int[0,10]}: every object has one property, so a
+// lone scalar travels down the whole chain by the shorthand rule and a rejection at the bottom travels back up
+// through n levels. The work (and the size of the error) has to stay proportional to n - the chain's length is the
+// plugin's choice. Constructor-built and rebuilt from its description.
+func c04WrapperChains(c *wk.Ctx, propID string) {
+	for _, n := range []int{3, 12, 24, 48} {
+		build := func() *schema.ScopeSchema {
+			var objs []*schema.ObjectSchema
+			for i := 0; i <= n; i++ {
+				props := map[string]*schema.PropertySchema{}
+				if i < n {
+					props["p"] = schema.NewPropertySchema(schema.NewRefSchema(fmt.Sprintf("W%d", i+1), nil), nil, true, nil, nil, nil, nil, nil)
+				} else {
+					props["v"] = schema.NewPropertySchema(schema.NewIntSchema(schema.IntPointer(0), schema.IntPointer(10), nil), nil, true, nil, nil, nil, nil, nil)
+				}
+				objs = append(objs, schema.NewObjectSchema(fmt.Sprintf("W%d", i), props))
+			}
+			return schema.NewScopeSchema(objs[0], objs[1:]...)
+		}
+		var s, rebuilt *schema.ScopeSchema
+		var err error
+		w := map[string]any{"objects_in_the_chain": n + 1}
+		c.Note(fmt.Sprintf("building and describing a chain of %d single-property objects", n+1))
+		if p, site, msg, _ := wk.Guard(func() {
+			s = build()
+			rebuilt, err = rebuildScope(s)
+		}); p || err != nil {
+			c.Violation(propID+":wrapper-chain-not-loaded:"+site, fmt.Sprintf("a chain of single-property objects cannot be built, described and rebuilt: %v %s", err, msg), w)
+			continue
+		}
+		for ti, t := range []*schema.ScopeSchema{s, rebuilt} {
+			for _, in := range []any{int64(5), "x", int64(50), nil, []any{}, 2.5, map[string]any{"p": "x"}, map[string]any{"p": map[string]any{"p": int64(11)}}} {
+				c.Note(fmt.Sprintf("a lone value %v on a chain of %d single-property objects (rebuilt: %v)", in, n+1, ti == 1))
+				var uerr error
+				if p, site, msg, _ := wk.Guard(func() {
+					_, uerr = t.Unserialize(in)
+					if uerr != nil {
+						_ = uerr.Error()
+					}
+					_ = t.ValidateCompatibility(in)
+				}); p {
+					w["input"] = fmt.Sprint(in)
+					c.Violation(propID+":panic:Unserialize:"+site, "a lone value on a chain of single-property objects: "+msg, w)
+				}
+				if in == int64(5) && uerr != nil {
+					c.Violation(propID+":wrapper-chain-rejects-valid-shorthand", fmt.Sprintf("5 is shorthand for the only value the chain can hold, but it is rejected: %v", clipStr(uerr.Error(), 300)), w)
+				}
+				c.Count("calls")
+			}
+		}
+		c.Count("wrapper_chains")
+		c.Eval(wk.Hash64("wrapper-chain", fmt.Sprint(n)), true)
+	}
+}
 
 // c04Arrays: list properties held in fixed-size ARRAY fields of a struct. Lists of every length (shorter, exact,
 // longer), of wrong item types, defaults that are too short, below a reference in a list: errors, never panics.
